@@ -14,3 +14,15 @@ package dispute
 //@ modifies bank.bal, bank.supply, dispute.Disputes, dispute.Votes, dispute.BlockInfo, reporter.*, staking.*, H_*, A_*
 //@ loop 0 "for ; iter.Valid(); iter.Next()"
 //@ loop 0 invariant [disputes_still_to_visit_are_pending_and_tallied] forall j in [itpos(iter), itlen(iter)) :: has(dispute.Disputes, itkey(iter, j)) && has(dispute.Votes, itkey(iter, j)) && dispute.Votes[itkey(iter, j)].VoteResult != types.VoteResult_NO_TALLY && dispute.Disputes[itkey(iter, j)] == old(dispute.Disputes[itkey(iter, j)])
+
+// Expiry of unfunded disputes and tally of ended voting rounds. A voting round has a vote record and the snapshot
+// (BlockInfo) of its dispute hash; with those in place and the module parameters set, the begin blocker does not fail.
+//@ func CheckOpenDisputesForExpiration(ctx, k) (err)
+//@ requires [voting_rounds_have_a_vote_and_a_snapshot] forall i int :: has(dispute.Disputes, i) && dispute.Disputes[i].DisputeStatus == types.Voting ==> has(dispute.Votes, i) && has(dispute.BlockInfo, bytes(dispute.Disputes[i].HashId))
+//@ requires [snapshot_totals_non_negative] forall h bytes :: has(dispute.BlockInfo, h) ==> dispute.BlockInfo[h].TotalReporterPower >= 0 && dispute.BlockInfo[h].TotalUserTips >= 0
+//@ requires [supply_non_negative] bank.supply >= 0
+//@ requires [parameters_set] has(dispute.Params)
+//@ modifies dispute.Disputes, dispute.Votes, H_*, A_*
+//@ ensures [expiry_and_tally_do_not_fail] err == nil
+//@ loop 0 "for ; iter.Valid(); iter.Next()"
+//@ loop 0 invariant [disputes_still_to_visit_are_as_on_entry] forall j in [itpos(iter), itlen(iter)) :: has(dispute.Disputes, itkey(iter, j)) && dispute.Disputes[itkey(iter, j)] == old(dispute.Disputes[itkey(iter, j)]) && (has(dispute.Votes, itkey(iter, j)) <==> old(has(dispute.Votes, itkey(iter, j)))) && dispute.Votes[itkey(iter, j)] == old(dispute.Votes[itkey(iter, j)])
